@@ -5,6 +5,29 @@ import json, pathlib
 ALL = [f'C{i:02d}' for i in range(1, 20)]
 
 CHECKS = {
+ 'C03': dict(
+   technique='Coq proof (nested induction over op trees / loop trees: parse-flatten inversion, well-formed emission under exceptions) + history-level differential with exceptions injected at every position + controller monitors on femto\'s own file',
+   text='Props/C03.v: for every op tree and exception position the session file is the DVAR preamble plus the print of a '
+        'well-formed loop tree (balanced, nested, NEXT matches FOR) and parses back to it; calls/removals of unloaded programs '
+        'are refused; the loaded-before/unloaded-after clause is machine-refuted for loop bodies that change the loaded set '
+        '(known finding). Tie to /repo: random and directed op trees are run against the real PGMCompiler with real with-blocks '
+        'and a user exception at every position; written-or-not, exception class, token stream and dwell are compared with '
+        'the model, and femto\'s file is parsed and run on the controller model (no controller error, rotation off, shutter '
+        'closed at the end, exposure only on written paths).',
+   note='Trusted: Coq kernel, lexer, Python with/finally semantics, Ctl/Machine.v as the reference controller. The shutter / '
+        'rotation / no-controller-error clauses are currently decided by the monitors on generated instances plus the '
+        'token-level tie to the model; their invariant proofs over all op trees are in progress (see DESIGN.md).',
+   design='5/C03'),
+ 'C12': dict(
+   technique='Coq proof (induction over op trees and loop trees: reported dwell = static dwell = executed dwell) + history-level differential + controller monitor',
+   text='Props/C12.v: for every configuration and op tree (any nesting, None/0/negative pauses, exceptions anywhere) the dwell '
+        'reported by the modelled session equals the dwell the controller executes when running the written file, from any '
+        'machine state. Tie to /repo: same histories as C03; femto\'s dwell_time is compared with the model and with the '
+        'dwell executed by the controller on femto\'s own file; fabrication_time of closed paths is compared with the '
+        'Gallina travel-time model and with scans x travel time of the controller trace of one compiled pass.',
+   note='Trusted: Coq kernel, lexer; float summation covered by 1e-9 (dwell) / 2e-4 (float32 fabrication_time) relative '
+        'tolerances; the fabrication-time clause is decided by correspondence only (no theorem yet).',
+   design='5/C12'),
  'C01': dict(
    technique='Coq proof (induction over the point list, invariant machine-shutter = tracked-shutter) + token-level differential + verified-by-construction replay monitor on femto\'s own .pgm',
    text='Props/C01.v: for every configuration, compiler state, agreeing machine state and 0/1-flagged point list the modelled '
